@@ -14,7 +14,10 @@ Inductive pmop :=
 Inductive c19case :=
 | CHandshake (challenge : N) (local_key : key) (t : ttype) (r : remote) (events_ok : bool)
 | CInvites (app : N) (me : secret) (me_key : key) (ops : list pmop)
-| CTokens (secs : list secret) (probes : list (nat * nat)).
+| CTokens (secs : list secret) (probes : list (nat * nat))
+(* several connections in a row; nonces = the challenges the implementation sent, renamed by first
+   occurrence (an input of the model, and the first part of the observation) *)
+| CSession (nonces : list N) (conns : list sconn).
 
 (* ---------------------------------------------------------------- handshake *)
 Definition result_code (r : result) : Z := match r with ROkFalse => 0 | ROkTrue => 1 | RErr => 2 end.
@@ -81,11 +84,18 @@ Fixpoint all_some {A} (l : list (option A)) : option (list A) :=
   | None :: _ => None
   end.
 
+Fixpoint run_conns (nonces : list N) (all : list sconn) (i : nat) (cs : list sconn) : list Z :=
+  match cs with
+  | [] => []
+  | c :: r => let x := conn_result nonces all i c in result_code (fst x) :: bound_of (snd x) :: run_conns nonces all (S i) r
+  end.
+
 Definition run_C19 (c : c19case) : list Z :=
   match c with
   | CHandshake ch lk t r ev => obs_handshake (init_connection ch lk t r ev)
   | CInvites app me mk ops => run_ops 1 (init_pm app me mk) ops
   | CTokens secs probes => match all_some (map (probe_token secs) probes) with Some ts => eq_matrix ts | None => [] end
+  | CSession nonces conns => map zn nonces ++ run_conns nonces conns 0 conns
   end.
 
 (* ================================================================ the property's own oracle *)
@@ -205,11 +215,35 @@ Fixpoint spec_tokens (secs : list secret) (probes : list (nat * nat)) (obs : lis
   | p :: r => row_ok secs p r (firstn (length r) obs) && spec_tokens secs r (skipn (length r) obs)
   end.
 
+(* sessions: (a) freshness: the challenges of different connections are pairwise different, whatever
+   the connections announce about themselves; (b) every connection is judged like a single handshake
+   against ITS challenge; (c) an answer recorded on another connection is never accepted *)
+Fixpoint nodup_n (l : list N) : bool :=
+  match l with [] => true | x :: r => negb (existsb (N.eqb x) r) && nodup_n r end.
+Definition conn_ok (nonces : list N) (all : list sconn) (i : nat) (c : sconn) (res bound : Z) : bool :=
+  match nth_error nonces i with
+  | Some n =>
+      spec_hs_with (entitled n (sc_tt c) (sremote_of nonces all i c)) [res; bound; 1; 0] &&
+      match sc_remote c with SReplay j => Nat.eqb j i || negb (Z.eqb res 1) | _ => true end
+  | None => false
+  end.
+Fixpoint spec_conns (nonces : list N) (all : list sconn) (i : nat) (cs : list sconn) (obs : list Z) : bool :=
+  match cs, obs with
+  | [], [] => true
+  | c :: r, res :: bound :: obs' => conn_ok nonces all i c res bound && spec_conns nonces all (S i) r obs'
+  | _, _ => false
+  end.
+Definition spec_session (conns : list sconn) (obs : list Z) : bool :=
+  let n := length conns in
+  let ns := map Z.to_N (firstn n obs) in
+  Nat.eqb (length ns) n && nodup_n ns && spec_conns ns conns 0 conns (skipn n obs).
+
 Definition spec_C19 (c : c19case) (obs : list Z) : bool :=
   match c with
   | CHandshake ch _ t r _ => spec_handshake ch t r obs
   | CInvites app _ _ ops => spec_invites app ops obs
   | CTokens secs probes => spec_tokens secs probes obs
+  | CSession _ conns => spec_session conns obs
   end.
 
 (* known-finding classes (known_findings.d/C19.json):
